@@ -71,7 +71,7 @@ package hive2
 //@ spec func inPos(bin int, pos []int32) bool = (exists i :: 0 <= i && i < len(pos) && u8(pos[i]) == bin)
 
 //@ func inArray
-//@   property C29
+//@   property C29 C37:safety
 //@   ensures result <==> inPos(int(bin), pos)
 //@   assigns nothing
 //@   loop 1 invariant 0 - 1 <= rangeindex && (rangeindex < len(pos) || len(pos) == 0 && rangeindex == 0 - 1)
@@ -80,7 +80,7 @@ package hive2
 
 //@ # the visitor passed to both peer iterations
 //@ func (*Service).onFindNode$2
-//@   property C29
+//@   property C29 C37:safety
 //@   requires s != nil && s.addressBook != nil && resp != nil
 //@   assigns region(skip), resp.Peers, region(resp.Peers)
 //@   iterinv requester-stays-skipped needs -: len(skip) >= 1 && skip[0] == requester
@@ -94,14 +94,14 @@ package hive2
 
 //@ # random choice of at most limit entries: every chosen entry is one of the given entries
 //@ func randPeersLimit$1
-//@   property C29
+//@   property C29 C37:safety
 //@   requires 0 <= i && i < len(peers) && 0 <= j && j < len(peers)
 //@   assigns elems(peers)
 //@   iterinv same-length: len(peers) == len(pre(peers))
 //@   iterinv entries-come-from-the-input: forall k :: 0 <= k && k < len(peers) ==> (exists m :: 0 <= m && m < len(pre(peers)) && peers[k] == pre(peers[m]))
 
 //@ func randPeersLimit
-//@   property C29
+//@   property C29 C37:safety
 //@   requires limit >= 0
 //@   requires forall k :: 0 <= k && k < len(peers) ==> peers[k] != nil
 //@   ensures entries-exist: forall k :: 0 <= k && k < len(result) ==> result[k] != nil
@@ -110,7 +110,7 @@ package hive2
 //@   assigns region(peers)
 
 //@ func (*Service).onFindNode
-//@   property C29
+//@   property C29 C37:safety
 //@   requires s != nil && s.addressBook != nil && s.config.Kad != nil && s.logger != nil && s.metrics.OnFindNode != nil && s.metrics.OnFindNodePeers != nil && stream != nil
 //@   requires requester == peer.Address
 //@   # everything the reply depends on, fixed before the first pass over the connected peers
@@ -133,3 +133,44 @@ package hive2
 //@   loop 1 invariant 0 - 1 <= rangeindex && rangeindex < len(connResult)
 //@   loop 1 invariant len(skip) == pre(len(skip)) + rangeindex + 1 && len(skip) >= 1 && skip[0] == requester
 //@   loop 1 invariant forall k :: 0 <= k && k <= rangeindex ==> skip[pre(len(skip)) + k] == addrOf(seq(connResult[k].Overlay))
+
+//@ # ---- C37: no message from the remote peer makes the peer exchange panic ----------------------
+//@ # (the handler onFindNode and its helpers above carry both properties)
+//@ extern func github.com/gauss-project/aurorafs/pkg/p2p/protobuf.NewWriterAndReader
+//@   assigns nothing
+//@ extern func (github.com/gauss-project/aurorafs/pkg/p2p.Stream).Reset
+//@   assigns nothing
+//@ extern func (github.com/gauss-project/aurorafs/pkg/p2p.StreamerPinger).NewStream
+//@   ensures result1 == nil ==> result0 != nil
+//@   assigns nothing
+//@ extern func (github.com/gauss-project/aurorafs/pkg/p2p.StreamerPinger).Ping
+//@   assigns nothing
+//@ extern func github.com/multiformats/go-multiaddr.NewMultiaddrBytes
+//@   ensures result1 == nil ==> result0 != nil
+//@   assigns nothing
+//@ extern func (github.com/gauss-project/aurorafs/pkg/addressbook.GetPutter).Put
+//@   assigns nothing
+//@ extern func (*golang.org/x/sync/semaphore.Weighted).Acquire
+//@   assigns nothing
+//@ extern func (*golang.org/x/sync/semaphore.Weighted).Release
+//@   assigns nothing
+
+//@ spec func clientOK(s *Service) bool = s != nil && s.streamer != nil && s.logger != nil && s.addressBook != nil && s.sem != nil && s.metrics.DoFindNode != nil && s.metrics.DoFindNodePeers != nil && s.metrics.UnreachablePeers != nil
+
+//@ # the client side: whatever the asked peer answers is handed to the checker
+//@ func (*Service).DoFindNode
+//@   property C37
+//@   requires clientOK(s)
+
+//@ # the checker: one goroutine per entry of the answer; an entry exists (the decoder never yields nil
+//@ # entries), its fields are arbitrary
+//@ func (*Service).checkAndAddPeers
+//@   property C37
+//@   requires clientOK(s)
+//@   requires forall k :: 0 <= k && k < len(result.pb.Peers) ==> result.pb.Peers[k] != nil
+//@   loop 1 invariant clientOK(s) && 0 - 1 <= rangeindex && rangeindex < len(result.pb.Peers)
+//@   loop 1 invariant forall k :: 0 <= k && k < len(result.pb.Peers) ==> result.pb.Peers[k] != nil
+
+//@ func (*Service).checkAndAddPeers$1
+//@   property C37
+//@   requires clientOK(s) && newPeer != nil
